@@ -144,6 +144,7 @@ type Trace struct {
 	Panic         string
 	Datagrams     int
 	Storms        int
+	Aliens        int
 	TailDrops     int
 	PoolViolation []string
 	PoolRecycles  int64
@@ -173,6 +174,40 @@ type conn interface {
 	AcquireMessage(ctx context.Context) *pool.Message
 	ReleaseMessage(m *pool.Message)
 	CheckExpirations(now time.Time)
+}
+
+// alienBlock turns a datagram that carries a later block of a body (Block1 with NUM > 0, or a
+// Block2 response) into the same block of a foreign exchange: other token, other message ID.
+// Anything else (whose foreign copy would simply be a second, legitimate request) gives nil.
+func alienBlock(data []byte) []byte {
+	m, ok := peer.ParseDatagram(data)
+	if !ok || len(m.Token) == 0 {
+		return nil
+	}
+	blockNum := func(num int) (int, bool) {
+		v, ok := peer.FindOpt(m, num)
+		if !ok {
+			return 0, false
+		}
+		x := 0
+		for _, b := range v {
+			x = x<<8 | int(b)
+		}
+		return x >> 4, true
+	}
+	n1, has1 := blockNum(27)
+	_, has2 := blockNum(23)
+	if !(has1 && n1 > 0) && !(has2 && m.Code >= 64) {
+		return nil
+	}
+	m.Token = append([]byte{}, m.Token...)
+	m.Token[0] ^= 0x5A
+	m.MID ^= 0x4000
+	out, err := refcodec.EncodeDatagram(m)
+	if err != nil {
+		return nil
+	}
+	return out
 }
 
 type snapshot struct {
@@ -369,7 +404,9 @@ func Run(t *testing.T, sc Scenario, track bool) (tr Trace) {
 		// ---- endpoints --------------------------------------------------------------------------------
 		lim := func(c EndCfg) int64 { return int64(def(c.Limit, 16)) }
 		if sc.Transport == "udp" {
-			plink = memnet.NewPacketLink(sc.Link)
+			lc := sc.Link
+			lc.Alien = alienBlock
+			plink = memnet.NewPacketLink(lc)
 			mk := func(end *memnet.PacketEnd, c EndCfg, errs *endpoints.Errs, p *pool.Pool, side string) *udpClient.Conn {
 				var cc *udpClient.Conn
 				cc = endpoints.UDP(end, []udp.Option{
@@ -702,6 +739,7 @@ func Run(t *testing.T, sc Scenario, track bool) (tr Trace) {
 				}
 			}
 			tr.Storms = plink.Storms
+			tr.Aliens = plink.Aliens
 			tr.TailDrops = plink.Drops
 		}
 	})
